@@ -1,7 +1,8 @@
 """C04, pair level: two unmodified SoulSeekClients + a simulated server on one FakeNet (virtual time).
 
 The downloader asks for a file the uploader shares; the i-th file (F) connection is reset after ``cuts[i]``
-file bytes; after the last scripted cut nothing fails any more. Monitor (the property statement on what the
+file bytes (optionally the peer connections that exist at that moment are broken too: ``pfaults`` — the next control
+write of the chosen side fails and the writer is told); after the last scripted cut nothing fails any more. Monitor (the property statement on what the
 two real clients did): offsets on the wire equal the local file size at that moment, the local file is
 always a prefix of the shared file, COMPLETE only with identical bytes, and once the faults stop both
 transfers reach COMPLETE without any API call.
@@ -210,9 +211,95 @@ async def _pair_main(loop, case: dict, tmp: str):
         down, up = clients
         # ---- fault injection: the k-th connection that announces itself as a file connection
         cuts = list(case['cuts'])
-        state = {'fconn': 0, 'offsets': [], 'dl_path': None, 'pconns': []}
+        state = {'fconn': 0, 'offsets': [], 'dl_path': None, 'pconns': [], 'pfailed': [], 'pw': {'up': 0, 'down': 0}}
         ctl_lines: list = []
         real_make_pair = net.make_pair
+        pfaults = list(case.get('pfaults') or [])
+
+        def arm_failing_write(w, other, n: int, skip: int = 0):
+            """the next `n` writes of this end of a peer (P) connection fail: the writer is TOLD (ConnectionResetError
+            -> the library raises ConnectionWriteError and closes the connection); nothing that a write had accepted
+            before is lost — a write that would find data still on its way to this end goes through, the fault waits
+            for the next one; the first `skip` writes still get through (the break is noticed at a later message)"""
+            left = {'n': n, 'skip': skip}
+            plain = w.write
+
+            def write(data):
+                if left['n'] <= 0 or w._closed or other.in_flight:
+                    return plain(data)
+                if left['skip'] > 0:
+                    left['skip'] -= 1
+                    return plain(data)
+                left['n'] -= 1
+                state['pfailed'].append((w.label, len(bytes(data))))
+                raise ConnectionResetError('scripted: the peer connection was reset')
+            w.write = write
+
+        def p_fault(idx: int):
+            """the moment the first end learns that file connection `idx` broke: whatever broke it also broke the
+            peer connection(s) between the two clients — seen by the chosen side(s) at their next control write"""
+            if idx >= len(pfaults) or not pfaults[idx]:
+                return
+            spec = pfaults[idx]
+            if spec.get('mode') == 'unreachable':
+                # the peer connections are closed (both ends see it) and for `window` seconds nobody can connect to
+                # `who`: a message for that client takes the whole connection attempt (direct: refused, indirect:
+                # 60 s without an answer) and then fails with PeerConnectionError
+                for _who, a_w, _b_w in list(state['pconns']):
+                    if not a_w._closed:
+                        a_w.close()
+                prts = [ports[spec['who']], ports[spec['who']] + 1]
+                for prt in prts:
+                    net.endpoints[prt] = fakenet.Endpoint('refuse')
+                loop.call_later(spec['window'], lambda: [net.endpoints.pop(prt, None) for prt in prts])
+                state['pfailed'].append(('unreachable', spec['who'], spec['window']))
+                return
+
+            def arm_all():
+                for who, a_w, b_w in list(state['pconns']):
+                    for side in (('up', 'down') if spec['who'] == 'both' else (spec['who'],)):
+                        w, other = (a_w, b_w) if who == side else (b_w, a_w)
+                        if not w._closed:
+                            arm_failing_write(w, other, spec.get('n', 1), spec.get('skip', 0))
+            if spec.get('delay'):
+                loop.call_later(spec['delay'], arm_all)
+            else:
+                arm_all()
+
+        pwrites = {(w, n) for w, n in (case.get('pwrites') or [])}
+        port_owner = {}
+        for nm, prt in ports.items():
+            port_owner[prt] = nm
+            port_owner[prt + 1] = nm
+
+        def count_control_writes(w, other, side: str, conn: dict):
+            """`pwrites`: the n-th write this client makes on a peer (P) connection (PeerInit frames included) fails —
+            same kind of fault as `arm_failing_write`. NOT generated (replay instrument for a side observation outside
+            C04's fault class: a queue request that cannot be delivered while the download is already QUEUED changes
+            no state, requests no management cycle and is not retried — e.g. `pwrites: [["down", 1]]`)"""
+            plain = w.write
+
+            def write(data):
+                if conn['typ'] is None and conn['first'] is w:
+                    d = bytes(data)
+                    try:
+                        (ulen,) = struct.unpack('<I', d[5:9])
+                        conn['typ'] = d[9 + ulen + 4:9 + ulen + 5].decode() if d[4] == 1 else '?'
+                    except (IndexError, struct.error, UnicodeDecodeError):
+                        conn['typ'] = '?'
+                if conn['typ'] == 'P' and not w._closed:
+                    if not conn.get('shift_' + side):
+                        state['pw'][side] += 1
+                    if (side, state['pw'][side]) in pwrites:
+                        if other.in_flight:
+                            conn['shift_' + side] = True         # wait for a write that loses nothing
+                        else:
+                            conn['shift_' + side] = False
+                            pwrites.discard((side, state['pw'][side]))
+                            state['pfailed'].append((side, state['pw'][side], len(bytes(data))))
+                            raise ConnectionResetError('scripted: the peer connection was reset')
+                return plain(data)
+            w.write = write
 
         def make_pair(remote_addr):
             a_reader, a_writer, b_reader, b_writer = real_make_pair(remote_addr)
@@ -221,6 +308,11 @@ async def _pair_main(loop, case: dict, tmp: str):
             _add_latency(a_writer, loop, lat, lat_a)
             _add_latency(b_writer, loop, lat)
             seen = {'init': False}
+            owner = port_owner.get(remote_addr[1]) if isinstance(remote_addr, tuple) else None
+            if pwrites and owner is not None:
+                conn = {'typ': None, 'first': a_writer}
+                count_control_writes(a_writer, b_writer, 'down' if owner == 'up' else 'up', conn)
+                count_control_writes(b_writer, a_writer, owner, conn)
 
             def half_visible_reset():
                 """the uploader's end fails at once; the downloader's end learns of it `rst_delay` later (or never
@@ -228,6 +320,8 @@ async def _pair_main(loop, case: dict, tmp: str):
                 a_writer.flush_in_flight()
                 if a_writer._closed:
                     return
+                if seen.get('fidx') is not None:
+                    p_fault(seen['fidx'])
                 a_writer._closed = True
                 net.closed_count += 1
                 if a_reader.exception() is None and not a_reader.at_eof():
@@ -260,6 +354,7 @@ async def _pair_main(loop, case: dict, tmp: str):
                             a_writer.reset = half_visible_reset
                             idx = state['fconn']
                             state['fconn'] += 1
+                            seen['fidx'] = idx
                             if idx < len(cuts) and case.get('rst_first') == 'down':
                                 # the DOWNLOADER learns of the break first (after `cuts[idx]` file bytes); the
                                 # uploader goes on writing and is told `rst_delay` later
@@ -267,6 +362,7 @@ async def _pair_main(loop, case: dict, tmp: str):
                                 lat_a['passed'] = 0
 
                                 def on_cut():
+                                    p_fault(idx)
                                     if b_reader.exception() is None and not b_reader.at_eof():
                                         b_reader.set_exception(ConnectionResetError('scripted reset (downloader first)'))
                                     b_writer._closed = True
@@ -348,7 +444,7 @@ async def _pair_main(loop, case: dict, tmp: str):
         dst = dl.state.VALUE.name + (f':{dl.fail_reason}' if dl.fail_reason else '')
         ust = (ul.state.VALUE.name + (f':{ul.fail_reason}' if ul.fail_reason else '')) if ul is not None else 'none'
         obs = [f'down={dst} up={ust} len={len(loc)} fconns={state["fconn"]} offsets={state["offsets"]} '
-               f'settle={round(loop.time() - t_faults_over)}']
+               f'settle={round(loop.time() - t_faults_over)} pfailed={state["pfailed"]}']
         for off, size in state['offsets']:
             if off != size:
                 V('C04-wrong-offset', f'offset {off} on the wire while the local file holds {size} bytes',
@@ -587,6 +683,46 @@ def gen_cases(rng: random.Random, n: int) -> list:
                   # how ticket / offset arrive on the file connection: whole, byte-wise, 1+rest, rest+1
                   'hs_split': rng.choice([None, None, 'bytes', 'bytes', 'first', 'last']),
                   'hs_gap': rng.choice([0.0, 0.001, 0.05, 0.3])})
+        out.append(c)
+    # whatever breaks the file connection breaks the peer connection(s) between the two clients too: the next control
+    # write of the uploader / the downloader / both on a connection that existed then fails (the writer is told, nothing
+    # a write had accepted is lost) — PeerUploadFailed, the re-queue request, the next offer or its reply
+    for i in range(max(4, (2 * n) // 5)):
+        N = rng.choice([300, 8193, 20000, 3 * 8192])
+        cuts, have = [], 0
+        for _ in range(rng.choice([1, 1, 1, 2])):
+            k = rng.choice([0, 1, 128, 8192, max(0, N - have - 1), max(0, N - have), rng.randint(0, max(0, N - have))])
+            k = min(k, max(0, N - have))
+            cuts.append(k)
+            have += k
+        c = {'kind': 'pair', 'gen': 'pair-pfault', 'flen': N, 'cuts': cuts, 'mul': rng.choice([1, 3, 7]),
+             'add': rng.randint(0, 255), 'lim_up': 0, 'lim_down': 0,
+             'lat_p': rng.choice([0.005, 0.02, 0.02, 0.02, 0.5, 3.0]), 'lat_f': rng.choice([0.005, 0.02, 0.5]),
+             'rst_delay': rng.choice([0.0, 0.01, 1.0, 1.0, 10.0, 10.0, 30.0, 400.0]),
+             'rst_first': rng.choice(['down', 'down', 'down', 'up', 'up']), 'hs_split': None,
+             'pfaults': [{'who': rng.choice(['up', 'up', 'both', 'both', 'down']), 'n': 1,
+                          'delay': rng.choice([0, 0, 0, 0.5, 5.0]), 'skip': rng.choice([0, 0, 0, 1, 2])}
+                         for _ in cuts]}
+        if i % 2 == 0:
+            # the schedule in which the downloader depends on being told: it learns of the break first, its re-queue
+            # request reaches the uploader while that one still uploads; then the uploader's message cannot be written
+            c.update({'rst_first': 'down', 'rst_delay': rng.choice([1.0, 10.0, 30.0, 200.0]),
+                      'lat_p': rng.choice([0.005, 0.02, 0.02, 0.5])})
+            c['pfaults'] = [{'who': rng.choice(['up', 'up', 'up', 'both']), 'n': 1, 'delay': 0, 'skip': 0} for _ in cuts]
+            if cuts[0] >= N:
+                cuts[0] = N - 1
+        elif i % 8 == 3:
+            # the downloader cannot be reached for a while: the uploader learns of the break first, PeerUploadFailed
+            # takes the whole connection attempt (~60 s) and then fails; the downloader's own request (it can reach
+            # the uploader) arrives meanwhile
+            c.update({'rst_first': rng.choice(['up', 'up', 'up', 'down']), 'rst_delay': rng.choice([1.0, 10.0, 30.0]),
+                      'lat_p': rng.choice([0.005, 0.02, 0.5])})
+            c['pfaults'] = [{'mode': 'unreachable', 'who': 'down', 'window': rng.choice([5.0, 30.0, 100.0])}
+                            for _ in cuts]
+        elif i % 4 == 1:
+            # the downloader's re-queue request(s) still get through, its PeerTransferReply to the next offer does not
+            c.update({'rst_delay': rng.choice([1.0, 10.0]), 'lat_p': rng.choice([0.005, 0.02, 0.5])})
+            c['pfaults'] = [{'who': 'down', 'n': 1, 'delay': 0, 'skip': rng.choice([1, 2, 2])} for _ in cuts]
         out.append(c)
     # several uploaders at once (every fresh uploader hands out the same first ticket)
     for i in range(max(2, n // 5)):
